@@ -183,6 +183,11 @@ func handOffStorm(L time.Duration, budget int64, workers int) (sig, what string,
 	shared, other := p1.NewLocker("x"), p2.NewLocker("x")
 	var stop atomic.Bool
 	var n atomic.Int64
+	began := time.Now()
+	stormCap := 15 * time.Second
+	if budget > 1_000_000 {
+		stormCap = 150 * time.Second
+	}
 	prevDone := make(chan struct{}, 1) // token: the previous holder has returned from Unlock
 	prevDone <- struct{}{}
 	keep, release := make(chan struct{}), make(chan struct{})
@@ -196,7 +201,9 @@ func handOffStorm(L time.Duration, budget int64, workers int) (sig, what string,
 				<-prevDone
 				c := n.Add(1)
 				_, pending := timeout.VerifState()
-				if pending == 0 || c >= budget {
+				// the storm ends with the hand-off budget or after 15 s / 150 s (a variant of the lock code that leaves
+				// a timer behind per hand-off makes every hand-off slower; the time cap only limits the workload)
+				if pending == 0 || c >= budget || time.Since(began) > stormCap {
 					if stop.CompareAndSwap(false, true) {
 						steered = pending == 0
 						close(keep)
@@ -723,6 +730,10 @@ func TestCheck(t *testing.T) {
 				defer twg.Done()
 				L := []time.Duration{300 * time.Millisecond, 400 * time.Millisecond}[i/2]
 				o := locktap.UnlockFaultThenRelock(L, i%2 == 0)
+				if o.Skipped != "" {
+					run.Add("unlock_fault_then_relock_skipped", 1)
+					return
+				}
 				run.Eval(1)
 				run.Add("unlock_fault_then_relock_scenarios", 1)
 				run.DistinctStr(fmt.Sprint("unlock-fault-then-relock", L, i%2 == 0))
